@@ -16,6 +16,8 @@ from kit import need_body, has_call, short, result_expr, mentions_field, thir_al
 
 
 def run(ck, facts, tier):
+    from props.c05 import coind_table
+    coind_table(ck, facts, "C06.HYPOTHESES-INDUCTIVE", only=lambda l: "FromEnv" in l or "Holds" in l or l.startswith(("Not", "EqGoal", "All", "Implies", "CannotProve", "SubtypeGoal")), floor=6)
     from shared import clauses as _clx
     _clx.clauses_no_drop(ck, facts, "C06.CLAUSES-NO-DROP")
     R = "C06.ENV-KEYED"
